@@ -93,3 +93,8 @@ func VpScramble(b *Board) *Board {
 	c.hashes = nil
 	return &c
 }
+
+// VpSetPos / VpGetPos: the opaque position identity used by the abstract search harnesses lives in fullMoves, which
+// the search never reads.
+func VpSetPos(b *Board, v uint64) { b.fullMoves = int(v) }
+func VpGetPos(b *Board) uint64     { return uint64(b.fullMoves) }
